@@ -179,12 +179,22 @@ def extend_model(model: sites.SiteModel, base: str, sc: Scratch) -> None:
     # selectors climb; listing these directories must neither inspect nor describe anything outside
     model.tree.file("climbmap/gophermap", "Climbing links\n0Up secret\t../../outside-secret.txt\n0Abs up\t/../outside-secret.txt\n"
                     "1Sibling\t../../SIBLING\n0Through self\t/climbmap/../../outside-secret.txt\n0Backslash\t..\\..\\outside-secret.txt\n"
-                    "0Dot slash\t./../../outside-secret.txt\n1Parent maildir\t/..\n0Fine\tinside.txt\n")
+                    "0Dot slash\t./../../outside-secret.txt\n1Parent maildir\t/..\n0Fine\tinside.txt\n"
+                    # no selector field: the display string is the selector
+                    "0../../outside-secret.txt\t\n1../../SIBLING\t\n0/../outside-secret.txt\t\n0../../outside-secret.txt\n"
+                    "0..\\..\\outside-secret.txt\t\t\t\n")
     model.tree.file("climbmap/inside.txt", "inside\n")
     model.add(b"/climbmap", "menu", tags=["dir", "climbing-content"])
     model.tree.file("climblinks/.Links", "Name=Up\nType=0\nPath=../../outside-secret.txt\n\nName=Up2\nType=0\nPath=./../../outside-secret.txt\n\n"
                     "Name=Abs\nType=0\nPath=/../outside-secret.txt\nHost=+\nPort=+\n\nName=Sib\nType=1\nPath=~/../../SIBLING\n")
     model.tree.file("climblinks/real.txt", "real\n")
+    # an archive in an archive, with a member named like the inner archive's index cache beside it
+    inner = Tree().file("in.txt", "inner member\n").file("sub/deep.txt", "deep\n")
+    outer = Tree().file("D/inner.zip", inner.to_zip(date_time=(2020, 1, 1, 0, 0, 0)))
+    outer.file("D/.cache.pygopherd.zip3.inner.zip", "not a dbm file\n").file("D/.cache.pygopherd.zip3.inner.zip.db", "nor this\n")
+    model.tree.file("nest.zip", outer.to_zip(date_time=(2031, 1, 1, 0, 0, 0)))
+    model.add(b"/nest.zip/D/inner.zip", "menu", needs_full=True, tags=["zip", "nested"])
+    model.add(b"/nest.zip/D/inner.zip/sub/deep.txt", "doc", None, needs_full=True, tags=["zip", "nested"])
     # an executable the kernel cannot run by itself (no #! line)
     model.tree.file("noshebang", "echo hello $1\n", mode=0o755)
     model.add(b"/noshebang", "doc", None, needs_full=True, tags=["exec", "noshebang"])
